@@ -67,6 +67,24 @@ func init() {
 	)}
 }
 
+func nTable(name string) *model.Schema {
+	return &model.Schema{Table: name, Hash: "pk", Range: "sk", Attrs: map[string]string{"pk": "S", "sk": "N"}, Billing: "PAY_PER_REQUEST"}
+}
+
+func init() {
+	knownRepros["F-NUMKEYTEXT"] = knownRepro{"history:C01", hist(bothClients,
+		model.Op{Kind: "CreateTable", Schema: nTable("tbl")},
+		model.Op{Kind: "Put", Table: "tbl", Item: model.Item{"pk": model.Str("a"), "sk": model.Num("1"), "v": model.Str("x")}},
+		model.Op{Kind: "Get", Table: "tbl", Key: model.Item{"pk": model.Str("a"), "sk": model.Num("1.0")}},
+	)}
+	knownRepros["F-NUMSORT"] = knownRepro{"history:C02", hist(worldCfg{V1: true, V2: true},
+		model.Op{Kind: "CreateTable", Schema: nTable("tbl")},
+		model.Op{Kind: "Put", Table: "tbl", Item: model.Item{"pk": model.Str("a"), "sk": model.Num("9")}},
+		model.Op{Kind: "Put", Table: "tbl", Item: model.Item{"pk": model.Str("a"), "sk": model.Num("10")}},
+		model.Op{Kind: "Query", Table: "tbl", KeyCond: "pk = :h", Values: map[string]model.AV{":h": model.Str("a")}},
+	)}
+}
+
 // TestGenKnown writes the repro files.
 func TestGenKnown(t *testing.T) {
 	if os.Getenv("VERIF_GEN_KNOWN") == "" {
